@@ -28,9 +28,18 @@ REQ_LETTERS = ["CER", "DWR", "DPR", "REQ", "REQmiss", "REQcmd", "REQapp", "REQre
 ANS_LETTERS = ["CEA", "CEAnohost", "DWA", "DWAbare", "DPA", "ANS", "ANSbare", "ANSerr"]
 APP_LETTERS = ["SUB", "SUB2", "APPREQ"]
 LATE = ["ANSlate", "ANSlatebare"]
-LETTERS = REQ_LETTERS + ANS_LETTERS + APP_LETTERS + LATE
+# requests carrying an AVP whose payload cannot be decoded (the handler trips over the value half-way through)
+BADVAL_LETTERS = ["CERbadip", "CERbadapp", "DWRbad", "DPRbad", "REQbadval"]
+EXH_LETTERS = REQ_LETTERS + ANS_LETTERS + APP_LETTERS + LATE
+REQ_LETTERS = REQ_LETTERS + BADVAL_LETTERS
+LETTERS = EXH_LETTERS + BADVAL_LETTERS
 STARTS = ["in-ready", "in-connected", "out-await-cea", "out-ready", "in-waiting-dwa", "in-disconnecting"]
 BEHAVIOURS = ["answer", "defer", "raise", "threading-answer", "threading-raise", "threading-none"]
+
+
+def R_enc(code, app, flags, hbh, e2e, body):
+    from vf import refcodec as R
+    return R.enc_msg(code, app=app, flags=flags, hbh=hbh, e2e=e2e, avps=body)
 
 
 def shards(tier, seed):
@@ -146,6 +155,23 @@ class Case:
             req = (282, 0)
         elif letter == "REQ":
             p.send(M.ccr(name, REALM, REALM, app=4, hbh=hbh, e2e=e2e), letter)
+            req = (272, 4)
+        elif letter == "CERbadip":
+            p.send(M.cer(name, REALM, auth=[4], hbh=hbh, e2e=e2e, omit=("host_ip_address",),
+                         extra=M.a(257, b"\x00\x01\x0a\x00\x00")), letter)
+            req = (257, 0)
+        elif letter == "CERbadapp":
+            p.send(M.cer(name, REALM, auth=[4], hbh=hbh, e2e=e2e, extra=M.a(258, b"\x00\x00\x04")), letter)
+            req = (257, 0)
+        elif letter == "DWRbad":
+            p.send(R_enc(280, 0, 0x80, hbh, e2e, M.origin(name, REALM) + M.a(278, b"\x01\x02\x03")), letter)
+            req = (280, 0)
+        elif letter == "DPRbad":
+            p.send(R_enc(282, 0, 0x80, hbh, e2e, M.origin(name, REALM) + M.a(273, b"\x00")), letter)
+            req = (282, 0)
+        elif letter == "REQbadval":
+            p.send(M.ccr(name, REALM, REALM, app=4, hbh=hbh, e2e=e2e, omit=("cc_request_type",),
+                         extra=M.a(416, b"\x00\x01")), letter)
             req = (272, 4)
         elif letter == "REQmiss":
             p.send(M.ccr(name, REALM, REALM, app=4, hbh=hbh, e2e=e2e, omit=("cc_request_type", "session_id")), letter)
@@ -321,6 +347,11 @@ DIRECTED = [
     ("in-ready", "raise", ["REQ", "REQmiss", "APPREQ", "ANSlate"]),
     ("in-ready", "threading-raise", ["REQ", "REQ", "APPREQ", "ANSlatebare"]),
     ("in-disconnecting", "defer", ["REQ", "SUB", "SUB2"]),
+    ("in-connected", "answer", ["CERbadip", "CER", "REQ"]),
+    ("in-connected", "answer", ["CERbadapp", "CER", "DWR"]),
+    ("in-ready", "answer", ["CERbadip", "DWRbad", "DPRbad", "REQbadval"]),
+    ("out-ready", "threading-answer", ["REQbadval", "DWRbad", "CERbadapp", "DPRbad"]),
+    ("in-waiting-dwa", "answer", ["DWRbad", "REQbadval", "DPRbad"]),
 ]
 
 
@@ -334,7 +365,7 @@ def run_shard(spec):
     if spec["kind"] == "exhaustive":
         i = 0
         for d in range(1, spec["depth"] + 1):
-            for script in itertools.product(LETTERS, repeat=d):
+            for script in itertools.product(LETTERS if d <= 2 else EXH_LETTERS, repeat=d):
                 i += 1
                 if i % spec["parts"] != spec["part"]:
                     continue
